@@ -867,6 +867,7 @@ def adapt_typehints(
     elif typehint_origin in sequence_origin_types:
         if append:
             adapt_kwargs.pop("prev_val")
+            adapt_kwargs["append"] = False  # the list is appended to, not each of its items
             if prev_val is None:
                 prev_val = []
             elif not isinstance(prev_val, list):
